@@ -362,3 +362,94 @@ Proof.
     unfold waitingish. destruct ((st =? ST_WAITING) || (st =? ST_DONE) || (st =? ST_SAVING)); cbn; [exact I|].
     unfold wloop, kloop. destruct (wc <? cnt); cbn; [reflexivity|]. ret_destr. reflexivity.
 Qed.
+
+Lemma in_maint_cons f r : in_maint (f :: r) = is_mslots f || in_maint r.
+Proof. reflexivity. Qed.
+
+Definition unlki_sim_P (m : kmem) (t q : nat) (ip : unlkipos) (r : stack cc) : Prop :=
+  match unlki_step m t q ip (in_maint r) with
+  | (m1, ICont ip') => noev (kstepC m t (unlki_stack q ip ++ r)) = (m1, unlki_stack q ip' ++ r)
+  | (m1, IRet v) => noev (kstepC m t (unlki_stack q ip ++ r)) = noev (ret cc cret m1 t v r)
+  | (_, IJunk) => True
+  end.
+
+Lemma unlki_sim m t q ip r : unlki_sim_P m t q ip r.
+Proof.
+  unfold unlki_sim_P. destruct ip as [|wc kp].
+  - cbn. destruct (word m q + 1 =? 1); cbn; [|reflexivity]. ret_destr. reflexivity.
+  - cbn [unlki_step unlki_stack]. rewrite <- app_assoc. cbn [app].
+    pose proof (wake_sim m t q 1 wc kp (UWoke :: r)) as W. unfold wake_sim_P in W.
+    rewrite in_maint_cons in W. cbn [is_mslots orb] in W.
+    destruct (wake_step m t q 1 wc kp (in_maint r)) as [m1 [wc' kp'|v|]].
+    + rewrite W. cbn [unlki_stack]. rewrite <- app_assoc. reflexivity.
+    + rewrite W. reflexivity.
+    + exact I.
+Qed.
+
+Definition slots_sim_P (m : kmem) (t : nat) (r : stack cc) : Prop :=
+  match slots_p m t with
+  | (m1, YCont yp) => noev (run_slots cc m t (YLoop :: r)) = (m1, yield_stack yp ++ r)
+  | (_, YRet) => False
+  | (_, YJunk) => True
+  end.
+
+Lemma slots_sim m t r : slots_sim_P m t r.
+Proof.
+  unfold slots_sim_P, slots_p, run_slots, sleep_p, sleep.
+  destruct (slot_sched m t); [exact I|].
+  destruct (slot_mpmc m t); [exact I|].
+  destruct (slot_mutex m t); [reflexivity|].
+  destruct (slot_wait m t) as [[? ?]|]; [exact I|].
+  destruct (pend m t); reflexivity.
+Qed.
+
+Definition yield_sim_P (m : kmem) (t : nat) (yp : yieldpos) (r : stack cc) : Prop :=
+  match yield_step m t yp with
+  | (m1, YCont yp') => noev (kstepC m t (yield_stack yp ++ r)) = (m1, yield_stack yp' ++ r)
+  | (m1, YRet) => noev (kstepC m t (yield_stack yp ++ r)) = noev (ret cc cret m1 t 0 r)
+  | (_, YJunk) => True
+  end.
+
+Lemma yield_sim m t yp r : yield_sim_P m t yp r.
+Proof.
+  unfold yield_sim_P.
+  destruct yp as [b|b st| | | | |q ip| |].
+  - reflexivity.
+  - cbn. unfold waitingish. destruct ((st =? ST_WAITING) || (st =? ST_DONE) || (st =? ST_SAVING)); cbn; [reflexivity|].
+    ret_destr. reflexivity.
+  - cbn. destruct (fstate m t =? ST_RUNNING); cbn; [exact I|reflexivity].
+  - reflexivity.
+  - cbn. destruct (fstate m t =? ST_SAVING); cbn; [reflexivity|].
+    pose proof (slots_sim m t r) as S. unfold slots_sim_P in S.
+    destruct (slots_p m t) as [m1 [yp'| |]]; try exact I; [|destruct S].
+    destruct (run_slots cc m t (YLoop :: r)) as [[? ?] ?]. cbn in *. exact S.
+  - cbn. pose proof (slots_sim (set_fstate m t ST_WAITING) t r) as S. unfold slots_sim_P in S.
+    destruct (slots_p (set_fstate m t ST_WAITING) t) as [m1 [yp'| |]]; try exact I; [|destruct S].
+    destruct (run_slots cc (set_fstate m t ST_WAITING) t (YLoop :: r)) as [[? ?] ?]. cbn in *. exact S.
+  - cbn [yield_step yield_stack]. rewrite <- app_assoc. cbn [app].
+    pose proof (unlki_sim m t q ip (MSlots :: YLoop :: r)) as U. unfold unlki_sim_P in U.
+    rewrite in_maint_cons in U. cbn [is_mslots orb] in U.
+    destruct (unlki_step m t q ip true) as [m1 [ip'|v|]].
+    + rewrite U. cbn [yield_stack]. rewrite <- app_assoc. reflexivity.
+    + rewrite U. cbn [ret].
+      pose proof (slots_sim m1 t r) as S. unfold slots_sim_P in S.
+      destruct (slots_p m1 t) as [m2 [yp'| |]]; try exact I; [exact S|destruct S].
+    + exact I.
+  - reflexivity.
+  - reflexivity.
+Qed.
+
+Definition wait_sim_P (m : kmem) (t q : nat) (wp : waitpos) (r : stack cc) : Prop :=
+  match wait_step m t q wp with
+  | (m1, TCont wp') => noev (kstepC m t (wait_stack q wp ++ r)) = (m1, wait_stack q wp' ++ r)
+  | (m1, TRet) => noev (kstepC m t (wait_stack q wp ++ r)) = noev (ret cc cret m1 t 0 r)
+  | (_, TJunk) => True
+  end.
+
+Lemma wait_sim m t q wp r : wait_sim_P m t q wp r.
+Proof.
+  unfold wait_sim_P. destruct wp as [| |n|n|p n|yp]; try reflexivity.
+  cbn [wait_step wait_stack].
+  pose proof (yield_sim m t yp r) as Y. unfold yield_sim_P in Y.
+  destruct (yield_step m t yp) as [m1 [yp'| |]]; auto.
+Qed.
